@@ -18,7 +18,7 @@ RULE = ("generated strongly connected street graphs with strongly varying speeds
 ASSUMPTIONS = ["no parallel edges in generated graphs (the link table keeps one link per ordered node pair); on Denver the cheaper of two parallel edges is the reference",
                "edge travel times are the ones OSMRoadNetwork itself validated / filled in (length / speed when missing)",
                "PYTHONHASHSEED pinned to 0"]
-FLOORS = {"quick": {"pairs": 2000, "flag:fastest_is_not_fewest_links": 150}, "thorough": {"pairs": 300000}}
+FLOORS = {"quick": {"pairs": 2000, "flag:fastest_is_not_fewest_links": 150}, "thorough": {"pairs": 100000}}
 
 
 @st.composite
